@@ -1,29 +1,42 @@
 CONFIG = {
     "rule": "cases = one operation on real py.String/py.Bytes objects: len, iteration, in, find/count/startswith/endswith (str or tuple argument, "
             "optional start/end), split (separator or None, maxsplit), join, strip/lstrip/rstrip (with and without argument), replace (count), "
-            "six comparisons, repetition, chr, ord through py.Call / the py API, and eval(repr(x)) == x (same types all the way down) through a "
-            "compiled program for str, bytes, int, float samples and nested tuples/lists; enumerated over ALL strings up to length 4 (quick) / 5 (thorough) "
+            "six comparisons, repetition, indexing s[i] and slicing s[a:b] (py.GetItem with an int / a slice object), chr, ord through py.Call / the py API, and eval(repr(x)) == x (same types all the way down) through a "
+            "compiled program for str, bytes, int, float samples and nested tuples/lists, and the value of ONE short string/bytes literal compiled from source "
+            "(`lit`: lexer.readString + DecodeEscape against the language reference's literal grammar and escape table: every body up to length 3 (4 thorough) "
+            "over {backslash, x, u, U, +, -, 0, 1, 7, 8, f, F, g, ', n, U+00E9} x both quotes x prefixes '' b r br, length 4 (5) over a 10-symbol sub-alphabet, "
+            "every \\uXXXX over 8 digits, \\x/\\u/\\U windows with one non-digit at each position or truncated, explicit boundary literals "
+            "('\\x+1', '\\U00110000', '\\U0010ffff', b'\\400', non-ASCII in bytes, every prefix spelling) and VERIF_SEED-derived bodies up to length 10; "
+            "a literal is non-trivial when it contains a backslash; surrogate escapes and \\N{..} are not generated); enumerated over ALL strings up to length 4 (quick) / 5 (thorough) "
             "over the alphabet {a, U+00E9, U+20AC, U+1F600, ', \", backslash, newline, NUL, space} for the unary operations and repr, all strings up to "
             "length 3 (4 thorough) x all needles up to length 2 (1 for length-4 strings) for the binary ones, every optional-integer argument position over "
-            "{absent, None, -7..7, 2^63-1, +-2^63} x strings up to length 2 (3 thorough) over a 5-symbol alphabet, plus VERIF_SEED-derived strings "
+            "{absent, None, -7..7, 2^63-1, +-2^63} x strings up to length 2 (3 thorough) over a 5-symbol alphabet (find/count/startswith/endswith/split/replace/slice bounds), "
+            "all strings up to length 3 (4 thorough) over the self-synchronisation alphabet {a, U+00E9, U+0269, U+00A9, U+03A9, U+20AC, U+0082} (characters sharing "
+            "continuation bytes) x needles for the searching operations, every index -5..5, 2^62, -2^63 on every string up to length 3 (4), plus VERIF_SEED-derived strings "
             "up to length 12 over a 41-symbol alphabet (UTF-8 class boundaries, U+FFFD, whitespace of every width, unprintables) and random scalar values; "
             "non-trivial = some string operand contains a non-ASCII, control, quote or backslash character, or an integer argument is None/negative/>3, "
             "or Python's result is an exception; distinct = distinct input lines",
     "trusted_base": [
         "Lean 4.33.0 kernel; axioms allowed: propext, Classical.choice, Quot.sound (audited per theorem on every run)",
-        "lean/GPy/C14/Spec.lean: my transcription of Python's str semantics on code-point lists (ADJUST_INDICES, whitespace set, split/replace/strip definitions)",
+        "lean/GPy/C14/Spec.lean: my transcription of Python's str semantics on code-point lists (ADJUST_INDICES, whitespace set, split/replace/strip definitions) "
+        "and of the short string/bytes literal grammar and escape table of the language reference 2.4.1 (Spec.evalSource; every literal error is a SyntaxError)",
         "lean/GPy/C14/Model.lean: hand transliteration of py/string.go, Bytes.M__repr__, Tuple.repr, parser/stringescape.go, lexer.readString, builtin chr/ord; "
         "tied to /repo by the correspondence run only (every case executed on the real packages)",
         "Go library functions modelled by their documented byte-level definitions: unicode/utf8 (EncodeRune, DecodeRuneInString, range-over-string), "
-        "strings (Index, Count, Replace, SplitN, HasPrefix/HasSuffix, Trim*Func, Join), strconv.ParseInt; strconv.IsPrint is a parameter of the theorems",
+        "strings (Index, Count, Replace, SplitN, HasPrefix/HasSuffix, Trim*Func, Join), strconv.ParseUint(s, 16, 32); strconv.IsPrint is a parameter of the theorems",
         "the parser/compiler/VM path from the token the lexer returns to the value eval() yields (tuple/list displays, constants) is exercised, not modelled",
         "harness/c14.go and checks/common.py (case transport, escaped-ASCII canonical form)",
     ],
     "assumptions": [
-        "proved for all inputs: UTF-8 decode/encode round trip, len, iteration, pos, slice (incl. ASCII fast path), chr/ord, join, repetition, "
-        "strip/lstrip/rstrip, whitespace set, prefix-code property and startswith without start/end, repr round trip of str (any IsPrint) and bytes; "
-        "tied by the correspondence run only (no theorem yet): in/find/count (utf8_sync), startswith/endswith with start/end, split, replace, "
-        "comparison (byte order = code-point order), the display syntax of nested tuples/lists, int and float literals",
+        "proved for all inputs (all code-point lists of Unicode scalar values, all integer / None / absent arguments): UTF-8 decode/encode round trip, "
+        "len, iteration, pos, slice (incl. ASCII fast path), s[i], s[a:b], chr/ord, join, repetition, strip/lstrip/rstrip, whitespace set, utf8_sync "
+        "(a valid needle matches only at code-point boundaries) and from it in / find / count / replace / split (separator and whitespace) with their "
+        "start/end/count/maxsplit arguments, startswith/endswith (str or tuple, start/end), the six comparisons (byte order = code-point order), "
+        "repr round trip of str (any IsPrint) and bytes, rejection of every non-hex-digit (signs included) in \\x/\\u/\\U windows, of \\U values above "
+        "U+10FFFF and of non-ASCII characters in bytes literals; the theorems with start/end assume len(s) < 2^63-1 (a Go string cannot be longer); "
+        "tied by the correspondence run only (no theorem): s[a:b:step] with a step (not generated either), upper/lower (no UTF-8 content; gpython has no rfind/index/partition), "
+        "the display syntax of nested tuples/lists, int and float literals, and the agreement of readString/DecodeEscape with Spec.evalSource on whole "
+        "literals (lit cases; single-line literals: triple-quoted and continuation-line forms are outside model and spec)",
         "a py.String holds valid UTF-8 (every constructor reachable from Python source produces valid UTF-8; chr() of a surrogate yields U+FFFD: C14-K01)",
         "float repr round trip is a tested sample (finite values), not a theorem; inf/nan have no literal in Python either",
         "repetition counts and widths beyond memory are not generated (s * n only for |n| <= 5)",
@@ -31,5 +44,6 @@ CONFIG = {
     ],
     "exhaustive": True,
     "dist_tokens": 2,
-    "group": lambda r: " ".join(r["input"].split(" ")[:2]) if not r["input"].startswith("rt ") else "rt " + r["input"][3:4],
+    "group": lambda r: "lit" if r["input"].startswith("lit ") else
+             " ".join(r["input"].split(" ")[:2]) if not r["input"].startswith("rt ") else "rt " + r["input"][3:4],
 }
